@@ -15,6 +15,9 @@ from mdsa.cfg import walk_local
 from mdsa.loader import AnalysisError
 
 from .c16 import explicit_returns
+from mdsa import match as MM
+
+from .sem import F
 from .common import Ctx
 from .tocmodel import I, r_links_register, r_loader_agreement, r_schema_register
 
@@ -72,24 +75,54 @@ def r3_accessors(P, rep, ctx):
             dropped = [st for st in walk_local(fi.node) if isinstance(st, ast.Expr) and isinstance(st.value, (ast.Subscript, ast.Attribute, ast.Name, ast.Compare, ast.BinOp))]
             rep.check(not dropped, "C20.R3", fi.qual, f"{m} contains no lookup whose value is dropped", fi.loc(), construct=f"{cname}.{m} dropped value", message=f"{cname}.{m} computes `{norm(dropped[0]) if dropped else ''}` and discards the value")
     gi = P.func(f"{I}.TOCSchemas.__getitem__")
-    rep.check("json.loads(node[()].decode('utf-8'))" in norm(P.func(f"{I}.TOCSchemas._load_json").node), "C20.R3", gi.qual, "embedded JSON Schema is decoded as written (UTF-8 JSON)", gi.loc(), construct="_load_json", message="_load_json does not decode UTF-8 JSON")
-    pv = P.func(f"{I}.TOCSchemas.provider")
-    t = norm(pv.node)
-    rep.check("next(iter(self._pkgs._providers.get(schema_ref, [])), None)" in t and "return self._pkgs[pkg_name_ver]" in t and "raise KeyError" in t, "C20.R3", pv.qual, "provider reports a stored package providing the schema (KeyError if none)", pv.loc(), construct="provider", message="TOCSchemas.provider does not return the stored package info of a provider")
-    pp = P.func(f"{I}.TOCSchemas.parent_path")
-    rep.check("return self._parents[s_ref]" in norm(pp.node) and "require_version=True" in norm(pp.node), "C20.R3", pp.qual, "parent_path reports the stored chain of exactly (name, version)", pp.loc(), construct="parent_path", message="TOCSchemas.parent_path does not return self._parents[<exact ref>]")
+    lj = P.func(f"{I}.TOCSchemas._load_json")
+    ljf = F(ctx, lj)
+    nd = lj.params[-1]
+    rets = [ljf.x(v) for _, v in ljf.returns() if v is not None]
+    rep.check(bool(rets) and all(r in (f"json.loads({nd}[()].decode('utf-8'))", f"json.loads({nd}[()])") for r in rets), "C20.R3", gi.qual, "embedded JSON Schema is decoded as written (UTF-8 JSON)", gi.loc(), construct="_load_json", message="_load_json does not decode UTF-8 JSON")
+    pvfi = P.func(f"{I}.TOCSchemas.provider")
+    pv = F(ctx, pvfi)
+    sr = pvfi.params[1]
+    PK = f"next(iter(self._pkgs._providers.get({sr}, [])), None)"
+    none = pv.tests(f"{PK} is None")
+    rets = [(i, pv.x_at(i, v)) for i, v in pv.returns() if v is not None]
+    ok = pv.refuses(none) and bool(rets) and all(t == f"self._pkgs[{PK}]" for i, t in rets) and all(pv.hit_before(i, edges=pv.neg(none)) for i, t in rets)
+    rep.check(ok, "C20.R3", pvfi.qual, "provider reports a stored package providing the schema (KeyError if none)", pvfi.loc(), construct="provider", message="TOCSchemas.provider does not return the stored package info of a provider of the schema / does not raise KeyError when none is stored")
+    ppfi = P.func(f"{I}.TOCSchemas.parent_path")
+    pp = F(ctx, ppfi)
+    from .c07 import unpack_names
+
+    nv = unpack_names(pp, f"plugin_args({ppfi.params[1]}, {ppfi.params[2]}, require_version=True)")
+    rets = [pp.x_at(i, v) for i, v in pp.returns() if v is not None]
+    rep.check(nv is not None and bool(rets) and all(r == f"self._parents[schemas.PluginRef(name={nv[0]}, version={nv[1]})]" for r in rets), "C20.R3", ppfi.qual, "parent_path reports the stored chain of exactly (name, version)", ppfi.loc(), construct="parent_path", message="TOCSchemas.parent_path does not return self._parents[<exact ref>]")
 
 
 def r4_schema_export(P, rep, ctx):
     fi = P.func("schema.core.SchemaBase.Config.schema_extra")
-    t = norm(fi.node)
-    ok = "for cname, cval in model.__constants__.items()" in t and "schema['properties'][cname] = True" in t and "schema[KEY_SCHEMA_CONSTFLDS][cname] = cval" in t and "schema[KEY_SCHEMA_CONSTFLDS] = {}" in t
+    f = F(ctx, fi)
+    g = f.g
+    sc, md = fi.params[0], fi.params[1]
+    has_consts = f.tests(f"{md}.__constants__", f"len({md}.__constants__)")
+    loops = [n for n in g.nodes if n.kind == "for" and f.x(n.stmt.iter) == f"{md}.__constants__.items()" and isinstance(n.stmt.target, ast.Tuple) and len(n.stmt.target.elts) == 2]
+    ok = len(loops) == 1
+    if ok:
+        L = loops[0].idx
+        cn, cvl = [norm(e) for e in loops[0].stmt.target.elts]
+        props = [i for i, v, b in f.stores(f"{sc}['properties'][{cn}]") if norm(v) == "True"]
+        consts = [i for i, v, b in f.stores(f"{sc}[KEY_SCHEMA_CONSTFLDS][{cn}]") if norm(v) == cvl]
+        init = [i for i, v, b in f.stores(f"{sc}[KEY_SCHEMA_CONSTFLDS]") if norm(v) in ("{}", "dict()")]
+        ok = bool(props) and bool(consts) and bool(init) and f.hit_before(L, nodes=props, src_edge=(L, "iter")) and f.hit_before(L, nodes=consts, src_edge=(L, "iter")) and f.hit_before(L, nodes=init)
     rep.check(ok, "C20.R4", fi.qual, "every constant is listed under properties and stored under the constants key of the JSON Schema", fi.loc(), construct="schema_extra constants", message="schema_extra does not export every constant field (properties + $metador_constants)")
-    gse = ctx.cfg(fi)
-    ct = [x.idx for x in gse.nodes if x.kind == "test" and norm(x.exprs[0]) == "model.__constants__"]
-    cl = [n.idx for n in gse.nodes if n.kind == "for" and norm(n.stmt.iter) == "model.__constants__.items()"]
-    rep.check(bool(ct) and bool(cl) and all(gse.edge_dominates(x, "T", l) for x in ct for l in cl) and all(gse.every_path_passes(cl, gse.exit, src=x, src_label="T") for x in ct), "C20.R4", fi.qual, "constants are exported exactly when the schema has some", fi.loc(), construct="constants export condition", message="schema_extra exports constants on the wrong branch")
-    rep.check("model = UndefVersion._unwrap(model) or model" in t, "C20.R4", fi.qual, "marked (version-less) classes export the schema of the real class", fi.loc(), construct="unwrap in schema_extra", message="schema_extra does not unwrap marked classes")
-    ms = P.func("schema.parser.ParserMixin.__modify_schema__")
-    t = norm(ms.node)
-    rep.check("parser := get_parser(cls)" in t and "schema.update(**schema_info)" in t, "C20.R4", ms.qual, "custom parser types contribute their schema_info to the JSON Schema", ms.loc(), construct="__modify_schema__", message="ParserMixin.__modify_schema__ does not merge the parser's schema_info")
+    cl = [n.idx for n in loops]
+    rep.check(bool(has_consts) and bool(cl) and f.all_hit_before(cl, edges=has_consts) and all(f.hit_before(g.exit, nodes=cl, src_edge=e) for e in has_consts), "C20.R4", fi.qual, "constants are exported exactly when the schema has some", fi.loc(), construct="constants export condition", message="schema_extra exports the constants under a different condition than `the schema has constants`")
+    unw = [(i, v) for i, v, b in f.stores(md)]
+    rep.check(bool(unw) and all(norm(v) in (f"UndefVersion._unwrap({md}) or {md}",) for i, v in unw) and f.all_hit_before(cl, nodes=[i for i, v in unw]), "C20.R4", fi.qual, "marked (version-less) classes export the schema of the real class", fi.loc(), construct="unwrap in schema_extra", message="schema_extra does not unwrap marked classes")
+    msfi = P.func("schema.parser.ParserMixin.__modify_schema__")
+    ms = F(ctx, msfi)
+    ups = ms.call_sites(f"{msfi.params[1]}.update(**__i)")
+    okm = bool(ups) and all(ms.x_at(i, b["__i"]) == "get_parser(cls).schema_info" for i, c, b in ups)
+    has_p = ms.tests("get_parser(cls)")
+    has_i = ms.tests("get_parser(cls).schema_info")
+    upn = [i for i, c, b in ups]
+    okm = okm and bool(has_p) and bool(has_i) and all(ms.hit_before(ms.g.exit, nodes=upn, edges=ms.neg(has_i), src_edge=e) for e in has_p)
+    rep.check(okm, "C20.R4", msfi.qual, "custom parser types contribute their schema_info to the JSON Schema", msfi.loc(), construct="__modify_schema__", message="ParserMixin.__modify_schema__ does not merge the parser's schema_info")
